@@ -80,6 +80,9 @@ def classify(run, side, unit_file):
         for r in raws:
             if r["line_start"] <= line <= r["line_end"]:
                 return "raw:" + r["name"]
+        for r in side.get("sections", []):
+            if r["line_start"] <= line <= r["line_end"]:
+                return "spec:" + r["name"]
         return None
 
     def clause_at(line):
